@@ -30,7 +30,7 @@ def main():
     na = [dict(property_id=p, reason=NA.get(p, PENDING)) for p in props if p not in CLAIMED]
     man = dict(version=1, setup_cmd='true',
                hooks=dict(guard='HEITZMANN_GDSTK_VERIF', enable='checks compile /repo/src with -DHEITZMANN_GDSTK_VERIF (no hook is currently needed; the define guards nothing)',
-                          baseline_off_cmd='cmake -G Ninja -B /repo/_build -S /repo && cmake --build /repo/_build && ctest --test-dir /repo/_build -j8 --timeout 900',
+                          baseline_off_cmd='cmake -G Ninja -B /repo/_build -S /repo && cmake --build /repo/_build && cmake --build /repo/_build --target examples && ctest --test-dir /repo/_build -j8 --timeout 900',
                           source_commits=[], add_only=True),
                engines=[dict(name='ir2c-cbmc', path='engine/driver.py', serves_properties=sorted(CLAIMED),
                              kind_free_text='clang-14 IR of /repo working tree -> C (own translator) -> CBMC bounded symbolic execution, SAT back end CaDiCaL/kissat; regenerated every run')],
